@@ -22,6 +22,8 @@ type Module struct {
 	Env   *Env
 	Dir   string
 	Cases []*CaseRun
+	// Asserts: also write the API assertion files (C01).
+	Asserts bool
 }
 
 // CaseRun is a case plus everything observed about it.
@@ -206,6 +208,13 @@ func (m *Module) WriteGlue() {
 			full := filepath.Join(cr.Dir, p)
 			os.MkdirAll(filepath.Dir(full), 0o755)
 			os.WriteFile(full, []byte(body), 0o644)
+			if m.Asserts {
+				if ap, abody := cr.Case.Assert(i, cv); ap != "" {
+					full := filepath.Join(cr.Dir, ap)
+					os.MkdirAll(filepath.Dir(full), 0o755)
+					os.WriteFile(full, []byte(abody), 0o644)
+				}
+			}
 		}
 	}
 }
